@@ -483,9 +483,48 @@ def _ech_split_case(g):
     return k, nr, nc, rows, "split/k%d/q%d/rem%d/%s" % (k, q, rem, style)
 
 
+def _ech_switch_case(g):
+    """the density-switching hybrid (brilliantrussian.c:683-709): M4RI runs while the sampled density is below the
+    threshold and hands the remaining window to PLUQ, then top-reduces the rows it had finished.  Sparse leading
+    columns (M4RI gets past column 256 with r > 0), optionally a zero column block so that the cursor lands on a
+    word boundary, then a dense remainder containing pivots; more than 256 columns, independent of sz."""
+    r = g.rng
+    nc = r.choice([320, 384, 400, 512, 640, 672])
+    nr = r.randint(nc // 2, nc + 60)
+    cut = r.choice([256, 257, 288, 320]) if nc > 330 else 256
+    cut = min(cut, nc - 32)
+    dens = r.choice([0.01, 0.03, 0.06])
+    rows = []
+    for _ in range(nr):
+        v = 0
+        for j in range(cut):
+            if r.random() < dens:
+                v |= 1 << j
+        v |= r.getrandbits(nc - cut) << cut
+        rows.append(v)
+    if r.random() < 0.5:
+        z0 = r.randint(8, cut - 40)
+        zw = r.choice([8, 33, 64 - z0 % 64 if z0 % 64 else 64])
+        mask = ~(((1 << zw) - 1) << z0)
+        rows = [v & mask for v in rows]
+    return nr, nc, rows, "switch/cut%d/d%g" % (cut, dens)
+
+
 def _ech(name, mk, kcall=None):
     def b(g, W, sz):
         c = g.rng.random()
+        if name in ("echelonize", "_echelonize_m4ri") and 0.3 <= c < 0.42:
+            nr, nc, ra, ka = _ech_switch_case(g)
+            la, da = g.operand("A", nr, nc, ra, W("A"))
+            call, meta = mk(g)
+            if name == "_echelonize_m4ri":
+                # heuristic on, automatic k, a threshold the sparse part stays below
+                f = g.rng.getrandbits(1)
+                thr = g.rng.choice(["0.15", "0.15", "0.5"])
+                call, meta = "call _echelonize_m4ri A %d 0 1 %s" % (f, thr), dict(full=f, k=0, heur=1, thr=thr)
+            m = dict(shape=(nr, nc), kinds=(ka,))
+            m.update(meta)
+            return _finish(la + [call], da), m
         if kcall is not None and c < 0.3:
             k, nr, nc, ra, ka = _ech_split_case(g)
             la, da = g.operand("A", nr, nc, ra, W("A"))
